@@ -7,7 +7,7 @@ From GA.Base Require Import Bytes Case.
 From GA.Gen Require Import GenCodes Iupac Alpha.
 From GA.Spec Require Import IupacSets NCBI.
 From GA.Model Require Import Translate.
-From GA.Proofs Require Import TranslateProofs.
+From GA.Proofs Require Import TranslateProofs ByRefProofs.
 
 (* the three code tables regenerated from /repo are NCBI tables 1, 2, 5 on all
    64 codons, map "---" to '-', and contain nothing else *)
@@ -92,26 +92,23 @@ Proof.
 Qed.
 Print Assumptions C05_codon_align_row.
 
-(* translation by reference without gaps is the plain translation: a FINITE statement, by exhaustive
-   evaluation in the kernel (reference rows of length 6 over {A, C}, second rows over {G, T}, the three
-   phases, standard and invertebrate mitochondrial codes) *)
-Theorem C05_byref_nogap_small : byref_plain_all 6 = true.
-Proof. exact byref_plain_small. Qed.
-Print Assumptions C05_byref_nogap_small.
-
-(* Reference-guided translation: the two clauses of the property are kept as
-   explicit statements.  They are NOT proved for the model here; every
-   generated case is checked against them by Corr/C05.v spec_ok (bounded). *)
+(* Reference-guided translation of rows without gaps is the plain translation of every row, for EVERY
+   alignment, code and phase (unbounded, by induction over the codons; rows of an alignment have one
+   length, C01) *)
 Definition no_gap_rows (rs : list (list byte * list byte)) : Prop :=
   forall r, In r rs -> forallb (fun b => negb (beqb b x2d)) (snd r) = true.
 
-Definition C05_byref_nogap_statement : Prop :=
+Theorem C05_byref_nogap :
   forall gc code phase refname rs out,
-  genetic_code gc = Some code -> no_gap_rows rs -> phase < 3 ->
-  (forall r, In r rs -> 3 + phase <= length (snd r)) ->
+  genetic_code gc = Some code -> no_gap_rows rs ->
+  (forall r r', In r rs -> In r' rs -> length (snd r) = length (snd r')) ->
   translate_by_reference NUCLEOTIDS gc phase refname rs = Some out ->
   out = map (fun r => (fst r, translate_from code (skipn phase (snd r)))) rs.
+Proof. exact byref_nogap_bool. Qed.
+Print Assumptions C05_byref_nogap.
 
+(* With gaps in the reference the frame-0 clause is kept as an explicit statement, NOT proved for the
+   model here; every generated case is checked against it by Corr/C05.v spec_ok (bounded). *)
 Definition is_prefix (a b : list byte) : Prop := exists t, b = a ++ t.
 
 Definition C05_byref_frame0_statement : Prop :=
